@@ -70,7 +70,10 @@ func genUintNBiased(s bitStream, max uint64) (uint64, bool, bool) {
 
 	if int(n) < bitlen {
 		bitlen = int(n)
-	} else if int(n) >= 64-(16-int(m))*4 {
+	} else if int(n) > bitlen && int(n) >= 64-(16-int(m))*4 {
+		// int(n) == bitlen draws a full-width value; overflowing to max in that case as well
+		// would make the values of the top bit length (other than max) unreachable for
+		// ranges spanning 56 or 60..64 bits, where the overflow threshold is <= bitlen
 		bitlen = 65
 	}
 
